@@ -1000,11 +1000,14 @@ const WORDS: &[&str] = &[
     "\u{80}", "\u{7ff}", "\u{800}", "\u{ffff}", "\u{10000}", "\u{10ffff}", "ana", "nan", "banana",
     // shapes a "modernised" front end could mishandle: surrounding blanks, case, file-name look-alikes
     " ab", "ab ", "AB", "Ab", "a.txt", "txt", "b.txt1:", "É", "ǅ", "ß ", "\t\t",
+    // characters with a special role elsewhere: byte order mark, replacement character, zero-width
+    // space, line separator, the code points around the surrogate gap
+    "\u{feff}", "\u{feff}ab", "\u{fffd}", "\u{200b}", "\u{2028}", "\u{d7ff}\u{e000}",
 ];
 
 const FILLER: &[&str] = &[
     "a", "b", "c", "d", "e", "h", "s", "r", "i", "x", "y", " ", " ", "o", "f", "世", "界", "全", "中", "に", "é", "n", "ß", "😀", "€",
-    ":", "0", "1", "-", "\t", "q", "Q", "試", "\u{10fffe}", ".", "*",
+    ":", "0", "1", "-", "\t", "q", "Q", "試", "\u{10fffe}", ".", "*", "\u{feff}", "\u{200b}", "\u{2028}",
 ];
 
 fn gen_line(rng: &mut Rng, pats: &[String], long: bool, alpha: Option<&[&str]>) -> String {
@@ -1128,6 +1131,9 @@ pub fn generate(seed: u64, cfg: &GenCfg) -> Scenario {
                     long_budget -= 1;
                 }
                 let mut l = gen_line(rng, &patterns, long, if many { Some(many_alpha) } else { None });
+                if rng.chance(1, 40) {
+                    l.insert(0, '\u{feff}');
+                }
                 if cr_run && rng.chance(1, 3) {
                     l.push('\r');
                 }
